@@ -237,12 +237,12 @@ type cfg struct {
 	// CancelCallCtx: the context passed to the join constructor ends right after the constructor returned (a caller
 	// that bounds the call, not the join): the join result stays open and keeps following its bases
 	CancelCallCtx bool
-	DstHist     []ev
-	MidHist     []ev // double join only: changes of the services in the middle
-	Cycles      int
-	Mode        string
-	Bound       int
-	Name        string
+	DstHist       []ev
+	MidHist       []ev // double join only: changes of the services in the middle
+	Cycles        int
+	Mode          string
+	Bound         int
+	Name          string
 }
 
 type inst struct {
